@@ -858,6 +858,8 @@ func runC01(c *hx.Ctx) {
 	if c.Tier == "thorough" {
 		budget.left = 6000000
 	}
+	// honest lookups over the whole alphabet of capital letters (escaping), some through the model
+	sumAlphabet(c, budget)
 	nBase := c.N(70)
 	perResp := 3
 	for b := 0; b < nBase; b++ {
